@@ -91,7 +91,8 @@ function check (job, resp, prefix, wrapper) {
     if (viaPkg.content !== job.code || !Buffer.from(viaPkg.content, 'utf8').equals(Buffer.from(job.code, 'utf8'))) push('not-byte-identical', 'package API did not hand back the caller\'s text byte for byte')
     // prediction: at least one required operation => must be modified (C04 reports the detail)
     const r = analyze(job, resp, prefix)
-    if (r.required > 0 && !(r.requiredNodes[0].__req.applyNonLiteralList)) push('required-but-notmodified', `policy requires ${r.required} hook(s) but the file was reported not modified`)
+    // canonical witnesses of recorded findings (C04 owns them: D19, D26) are not re-judged here
+    if (r.required > 0 && !(r.requiredNodes[0].__req.applyNonLiteralList) && !job.meta.known) push('required-but-notmodified', `policy requires ${r.required} hook(s) but the file was reported not modified`)
     out.required = r.required
   } else {
     if (viaPkg.content !== ok.content) push('wrapper-altered-modified', 'package wrapper altered a modified result')
